@@ -102,6 +102,9 @@ func c25Hex(b []byte) string {
 
 func driveC25(toks []string) string {
 	log.SetOutput(io.Discard)
+	if out, ok := c25SpecDrive(toks); ok {
+		return out
+	}
 	op := c25Parse(toks)
 	schema := physical.Schema{Fields: op.fields, TimeField: -1}
 	var buf bytes.Buffer
@@ -474,6 +477,7 @@ func c25Field(name string, t octosql.Type) []physical.SchemaField {
 func genC25(g *Gen, tier string, w *bufio.Writer) {
 	thorough := tier == "thorough"
 	all := c25AllStrings()
+	c25SpecGen(g, tier, w)
 
 	// 1. every edge string as the only cell of a row, as a cell between two others, and as a column name
 	for _, s := range all {
